@@ -306,6 +306,7 @@ func (x *Exec) jump(st *State, fr *Frame, to *ssa.BasicBlock) bool {
 		d.disc = &discoverCtx{depth: len(d.stack), header: to.Index, blocks: li.blocks, writes: map[string]bool{}}
 		dfr := d.top()
 		d.havocAll()
+		d.disc.all = false
 		x.havocPhis(d, dfr, to)
 		dfr.prev = from
 		dfr.block = to
